@@ -1431,6 +1431,7 @@ func (p *printer) printRequireOrImportExpr(importRecordIndex uint32, level js_as
 			wrapWithToESM := record.Flags.Has(ast.WrapWithToESM)
 			if wrapWithToESM {
 				p.printSpaceBeforeIdentifier()
+				p.verifTag(p.options.ToESMRef)
 				p.printIdentifier(p.renamer.NameForSymbol(p.options.ToESMRef))
 				p.print("(")
 			}
@@ -1438,6 +1439,7 @@ func (p *printer) printRequireOrImportExpr(importRecordIndex uint32, level js_as
 			// Potentially substitute our own "__require" stub for "require"
 			p.printSpaceBeforeIdentifier()
 			if record.Flags.Has(ast.CallRuntimeRequire) {
+				p.verifTag(p.options.RuntimeRequireRef)
 				p.printIdentifier(p.renamer.NameForSymbol(p.options.RuntimeRequireRef))
 			} else {
 				p.print("require")
@@ -1497,6 +1499,7 @@ func (p *printer) printRequireOrImportExpr(importRecordIndex uint32, level js_as
 			// Wrap this with a call to "__toESM()" if this is a CommonJS file
 			if record.Flags.Has(ast.WrapWithToESM) {
 				p.printSpaceBeforeIdentifier()
+				p.verifTag(p.options.ToESMRef)
 				p.printIdentifier(p.renamer.NameForSymbol(p.options.ToESMRef))
 				p.print("(")
 				defer func() {
@@ -1512,6 +1515,7 @@ func (p *printer) printRequireOrImportExpr(importRecordIndex uint32, level js_as
 			// Potentially substitute our own "__require" stub for "require"
 			p.printSpaceBeforeIdentifier()
 			if record.Flags.Has(ast.CallRuntimeRequire) {
+				p.verifTag(p.options.RuntimeRequireRef)
 				p.printIdentifier(p.renamer.NameForSymbol(p.options.RuntimeRequireRef))
 			} else {
 				p.print("require")
@@ -1559,11 +1563,13 @@ func (p *printer) printRequireOrImportExpr(importRecordIndex uint32, level js_as
 	// Internal "import()" of async ESM
 	if record.Kind == ast.ImportDynamic && meta.IsWrapperAsync {
 		p.printSpaceBeforeIdentifier()
+		p.verifTag(meta.WrapperRef)
 		p.printIdentifier(p.renamer.NameForSymbol(meta.WrapperRef))
 		p.print("()")
 		if meta.ExportsRef != ast.InvalidRef {
 			p.printDotThenPrefix()
 			p.printSpaceBeforeIdentifier()
+			p.verifTag(meta.ExportsRef)
 			p.printIdentifier(p.renamer.NameForSymbol(meta.ExportsRef))
 			p.printDotThenSuffix()
 		}
@@ -1588,12 +1594,14 @@ func (p *printer) printRequireOrImportExpr(importRecordIndex uint32, level js_as
 	wrapWithToESM := record.Flags.Has(ast.WrapWithToESM)
 	if wrapWithToESM {
 		p.printSpaceBeforeIdentifier()
+		p.verifTag(p.options.ToESMRef)
 		p.printIdentifier(p.renamer.NameForSymbol(p.options.ToESMRef))
 		p.print("(")
 	}
 
 	// Call the wrapper
 	p.printSpaceBeforeIdentifier()
+	p.verifTag(meta.WrapperRef)
 	p.printIdentifier(p.renamer.NameForSymbol(meta.WrapperRef))
 	p.print("()")
 
@@ -1605,9 +1613,11 @@ func (p *printer) printRequireOrImportExpr(importRecordIndex uint32, level js_as
 		// Wrap this with a call to "__toCommonJS()" if this is an ESM file
 		wrapWithTpCJS := record.Flags.Has(ast.WrapWithToCJS)
 		if wrapWithTpCJS {
+			p.verifTag(p.options.ToCommonJSRef)
 			p.printIdentifier(p.renamer.NameForSymbol(p.options.ToCommonJSRef))
 			p.print("(")
 		}
+		p.verifTag(meta.ExportsRef)
 		p.printIdentifier(p.renamer.NameForSymbol(meta.ExportsRef))
 		if wrapWithTpCJS {
 			p.print(")")
@@ -3209,6 +3219,7 @@ func (p *printer) printExpr(expr js_ast.Expr, level js_ast.L, flags printExprFla
 			}
 			p.printSpaceBeforeIdentifier()
 			p.addSourceMapping(expr.Loc)
+			p.verifTag(symbol.NamespaceAlias.NamespaceRef)
 			p.printIdentifier(p.renamer.NameForSymbol(symbol.NamespaceAlias.NamespaceRef))
 			alias := symbol.NamespaceAlias.Alias
 			if !e.PreferQuotedKey && p.canPrintIdentifier(alias) {
